@@ -210,6 +210,7 @@ def flows(ctx, n_ds, quick):
         polys = r[1]
         if not any(p is not None for p in polys):
             continue
+        ds_before = ds.copy(deep=True)
         geoms = [g for g in geometries(rng, polys, 4) if g[0] != 'miss']
         rng.shuffle(geoms)
         # meshes always meet the region that leaves out one cell in the middle (a face dropped with all its nodes kept)
@@ -222,12 +223,14 @@ def flows(ctx, n_ds, quick):
                 ys_ = [y for p in polys if p for x, y in p]
                 geoms.insert(0, ('cover', [('ring', [(min(xs_) - 1, min(ys_) - 1), (max(xs_) + 1, min(ys_) - 1), (max(xs_) + 1, max(ys_) + 1),
                                                       (min(xs_) - 1, max(ys_) + 1)])]))
-        for gi, (tag, parts) in enumerate(geoms[:((3 if fam == 'ugrid' else 2) if quick else 4)]):
+        for gi, (tag, parts) in enumerate(geoms[:((3 if (fam == 'ugrid' or n % 3 == 0) else 2) if quick else 4)]):
             g = to_shapely(parts)
             shp = [None if p is None else __import__('shapely').Polygon(p) for p in polys]
             if not any(p is not None and p.intersects(g) for p in shp):
                 continue
             buffer = 0 if gi == 0 else rng.choice([0, 1, 2])
+            if fam != 'ugrid' and n % 3 == 0 and gi >= 1:
+                buffer = 1          # two regions grown by the same amount on the same grid, one after the other
             history = rng.choice(['direct', 'direct', 'saved_mask'])
             f = Flow()
             f.d, f.added, f.src, f.ds, f.polys, f.geom, f.tag, f.parts, f.buffer, f.history = d, added, src, ds, polys, g, tag, parts, buffer, history
@@ -259,7 +262,8 @@ def flows(ctx, n_ds, quick):
                     target.load()
                     if n % 2 == 0:
                         target = add_memory_vars(target, d)
-                f.mask, f.target = mask, target
+                mask_copy = mask.copy(deep=True)
+                f.mask, f.target = mask_copy, target
                 work = tempfile.mkdtemp(prefix='work_', dir=tmp)
                 try:
                     r = ('ok', target.ems.apply_clip_mask(mask, work))
@@ -272,6 +276,18 @@ def flows(ctx, n_ds, quick):
                     out.append(f)
                     continue
                 res = r[1]
+                if history == 'direct':
+                    # the mask is the caller's: he blanks it, and asks the same question again - the answer is the mask as before
+                    for v_ in mask.data_vars:
+                        if mask[v_].dtype.kind == 'b':
+                            try:
+                                mask[v_].values[...] = False
+                            except ValueError:
+                                pass
+                    again = attempt(lambda: ds.ems.make_clip_mask(g, buffer))
+                    if again[0] != 'ok' or not again[1].equals(mask_copy):
+                        ctx.report('property', 'the same clip region asked for again, after the caller blanked the mask he was given the '
+                                   'first time, gives another mask', f.case)
                 r = attempt(res.load)
                 if r[0] != 'ok':
                     f.error = f'loading the clipped dataset failed: {r[1]}'
@@ -289,6 +305,9 @@ def flows(ctx, n_ds, quick):
                 f.saved = spath if r[0] == 'ok' else None
                 f.save_error = None if r[0] == 'ok' else r[1]
             out.append(f)
+        if not ds.identical(ds_before):
+            ctx.report('property', 'clipping modified the dataset that was clipped (its variables, coordinates or attributes differ from '
+                       'what was opened)', {'dataset': d.spec['label'], 'mask_and_scale': not raw_mode})
     return out, tmp
 
 
